@@ -40,6 +40,7 @@ func runC10(c *Ctx) {
 	ruleS4(c, "S4")
 	ruleG9(c, "S5")
 	ruleG10(c, "S6")
+	ruleG11(c, "S7")
 }
 
 // checkProvenance: Decode -> (document, filename, fileIndex stores) -> use.
@@ -273,7 +274,15 @@ func checkS2(c *Ctx, fn *ssa.Function) {
 		r.Fatal("anchor moved: no evaluation (GetMatchingNodes) in %s or in a helper it calls", funcKey(fn))
 		return
 	}
-	checkS2In(c, funcKey(fn), helperCall.Call.StaticCallee(), false)
+	helper := helperCall.Call.StaticCallee()
+	if passesEvaluationThrough(helper) {
+		// the helper only evaluates (builds the per-document context and returns the
+		// evaluator's result and error unchanged); printing stays in the loop
+		checkS2Parts(c, funcKey(fn), helper, false, nil, true)
+		checkS2Parts(c, funcKey(fn), fn, true, helperCall, false)
+		return
+	}
+	checkS2In(c, funcKey(fn), helper, false)
 	key := funcKey(fn) + "/error-stops " + helperCall.Call.StaticCallee().Name()
 	if errorReachesReturn(helperCall, 0) {
 		r.Discharge("S2", key, c.P.pos(helperCall.Pos()), "the helper's error is returned")
@@ -286,12 +295,53 @@ func checkS2(c *Ctx, fn *ssa.Function) {
 // needDecode: the function is the loop itself (the fresh list must be created after Decode);
 // otherwise it is a helper called once per document (everything it creates is per document).
 func checkS2In(c *Ctx, keyFn string, fn *ssa.Function, needDecode bool) {
+	checkS2Parts(c, keyFn, fn, needDecode, nil, false)
+}
+
+// passesEvaluationThrough: every return of f hands back, unchanged, the two
+// results of a GetMatchingNodes call made in f.
+func passesEvaluationThrough(f *ssa.Function) bool {
+	if f.Signature.Results().Len() != 2 {
+		return false
+	}
+	n := 0
+	for _, b := range f.Blocks {
+		ret, ok := b.Instrs[len(b.Instrs)-1].(*ssa.Return)
+		if !ok {
+			continue
+		}
+		n++
+		if len(ret.Results) != 2 {
+			return false
+		}
+		for i, rv := range ret.Results {
+			ex, ok := rv.(*ssa.Extract)
+			if !ok || ex.Index != i {
+				return false
+			}
+			call, ok := ex.Tuple.(*ssa.Call)
+			if !ok || !call.Call.IsInvoke() || call.Call.Method.Name() != "GetMatchingNodes" {
+				return false
+			}
+		}
+	}
+	return n > 0
+}
+
+// checkS2Parts: evalCall, when given, is the call in fn that stands for the
+// evaluation (a helper that passes the evaluator's results through); onlyFresh
+// restricts the check to the construction of the context.
+func checkS2Parts(c *Ctx, keyFn string, fn *ssa.Function, needDecode bool, evalCall *ssa.Call, onlyFresh bool) {
 	r := c.R
 	var decode, gm *ssa.Call
 	var prints []*ssa.Call
+	gm = evalCall
 	eachInstr(fn, func(ins ssa.Instruction) {
 		call, ok := ins.(*ssa.Call)
 		if !ok || !call.Call.IsInvoke() {
+			return
+		}
+		if call.Call.Method.Name() == "GetMatchingNodes" && evalCall != nil {
 			return
 		}
 		switch call.Call.Method.Name() {
@@ -335,10 +385,15 @@ func checkS2In(c *Ctx, keyFn string, fn *ssa.Function, needDecode bool) {
 		}
 	}
 	walk(ctxArg, 0)
-	if fresh {
+	if evalCall != nil {
+		// the context is built inside the helper and judged there
+	} else if fresh {
 		r.Discharge("S2", keyFn+"/fresh-context", c.P.pos(gm.Pos()), "evaluation context is a literal over a list created inside the iteration (after Decode)")
 	} else {
 		r.Finding("S2", keyFn+"/fresh-context", c.P.pos(gm.Pos()), "evaluation context is not built from a list created in this iteration: results of document k can depend on earlier documents")
+	}
+	if onlyFresh {
+		return
 	}
 	// variables map etc. must not be carried: no other field of the context literal is set from a loop phi
 	if len(prints) == 1 && gm.Block().Dominates(prints[0].Block()) {
@@ -379,7 +434,11 @@ func checkS2In(c *Ctx, keyFn string, fn *ssa.Function, needDecode bool) {
 	}
 	// a failed print / evaluation ends the run (no `continue` past an error)
 	for _, call := range append([]*ssa.Call{gm}, prints...) {
-		key := keyFn + "/error-stops " + call.Call.Method.Name()
+		name := "GetMatchingNodes" // a pass-through helper stands for the evaluation
+		if call.Call.IsInvoke() {
+			name = call.Call.Method.Name()
+		}
+		key := keyFn + "/error-stops " + name
 		if errorReachesReturn(call, 0) {
 			r.Discharge("S2", key, c.P.pos(call.Pos()), "its error is returned")
 		} else {
